@@ -136,6 +136,23 @@ func (in *Interp) freshVar(prefix string, s Sort) *Term {
 	return in.ts.Var(fmt.Sprintf("%s!%d", prefix, in.uidSeq), s)
 }
 
+// noteDiff records, for a write into a monitored (input / returned) buffer, the
+// condition under which the write is VISIBLE (new value != old value): the
+// monitor assertions ask the solver for a model in which some write changes a
+// byte, so that the counterexample also shows natively (a copy compare).
+func (in *Interp) noteDiff(o *Obj, old, nv Value) {
+	if o == nil || (!o.input && o.owned == "") {
+		return
+	}
+	a, ok1 := old.(*Term)
+	b, ok2 := nv.(*Term)
+	if !ok1 || !ok2 || a == nil || b == nil || a.Sort != b.Sort {
+		in.monDiffs = append(in.monDiffs, in.ts.Bool(true))
+		return
+	}
+	in.monDiffs = append(in.monDiffs, in.ts.Not(in.ts.Eq(a, b)))
+}
+
 func (in *Interp) noteWrite(o *Obj) {
 	if o.input {
 		in.events = append(in.events, "write to input buffer @"+in.posStr())
@@ -150,6 +167,7 @@ func (in *Interp) writeObj(o *Obj, k int, v Value) {
 		return
 	}
 	in.noteWrite(o)
+	in.noteDiff(o, o.E[k], v)
 	in.storeSlot(&o.E[k], v)
 }
 
@@ -200,6 +218,7 @@ func (in *Interp) writeCell(o *Obj, idx *Term, v *Term) {
 		if idx.Val >= uint64(len(o.E)) {
 			in.end("alloc", fmt.Sprintf("write beyond physical size %d (idx %d)", len(o.E), idx.Val))
 		}
+		in.noteDiff(o, o.E[idx.Val], v)
 		o.E[idx.Val] = v
 		return
 	}
@@ -208,6 +227,11 @@ func (in *Interp) writeCell(o *Obj, idx *Term, v *Term) {
 		hi = uint64(len(o.E)) - 1
 	}
 	for k := lo; k <= hi && k < uint64(len(o.E)); k++ {
+		if o.input || o.owned != "" {
+			if old, ok := o.E[k].(*Term); ok && old.Sort == v.Sort {
+				in.monDiffs = append(in.monDiffs, ts.And(ts.Eq(idx, ts.Const(64, k)), ts.Not(ts.Eq(v, old))))
+			}
+		}
 		o.E[k] = ts.Ite(ts.Eq(idx, ts.Const(64, k)), v, o.E[k].(*Term))
 	}
 }
@@ -251,6 +275,7 @@ func (in *Interp) store(p Pointer, v Value) {
 			if p.O.lenOnly {
 				return
 			}
+			in.noteDiff(p.O, *p.P, v)
 		}
 		in.storeSlot(p.P, v)
 		return
@@ -530,6 +555,9 @@ func (in *Interp) copyCells(dst *Obj, doff *Term, src seqView, n *Term) {
 		for j := dl; j < uint64(len(dst.E)) && j-dl < (dh-dl)+nh; j++ {
 			dst.E[j] = in.freshVar("hv", BV(w))
 		}
+		if dst.input || dst.owned != "" {
+			in.monDiffs = append(in.monDiffs, ts.Bool(true))
+		}
 		return
 	}
 	// snapshot source when overlapping with destination
@@ -576,6 +604,11 @@ func (in *Interp) copyCells(dst *Obj, doff *Term, src seqView, n *Term) {
 			if sv == nil {
 				continue
 			}
+			if dst.input || dst.owned != "" {
+				if old, ok := dst.E[j].(*Term); ok && old.Sort == sv.Sort {
+					in.monDiffs = append(in.monDiffs, ts.And(ts.Ult(ts.Const(64, k), n), ts.Not(ts.Eq(sv, old))))
+				}
+			}
 			dst.E[j] = ts.Ite(ts.Ult(ts.Const(64, k), n), sv, dst.E[j].(*Term))
 		}
 		return
@@ -592,6 +625,11 @@ func (in *Interp) copyCells(dst *Obj, doff *Term, src seqView, n *Term) {
 			continue
 		}
 		c := ts.And(ts.Ule(doff, jc), ts.Ult(k, n))
+		if dst.input || dst.owned != "" {
+			if old, ok := dst.E[j].(*Term); ok && old.Sort == sv.Sort {
+				in.monDiffs = append(in.monDiffs, ts.And(c, ts.Not(ts.Eq(sv, old))))
+			}
+		}
 		dst.E[j] = ts.Ite(c, sv, dst.E[j].(*Term))
 	}
 }
